@@ -61,6 +61,18 @@ def sinks_strategy(prog, classes=VALID, max_sinks=3, allow_repeat=True):
                 s["full_slices"] = True  # region given as all-slice(None) over an equal-shaped target
             elif cls == "region-aligned" and v.size > 0 and draw(st.integers(0, 3)) == 0:
                 s["shard_region"] = True  # the target is sharded; the region is aligned to its shards
+            if cls == "existing-dtype" and (v.dtype.kind == "c" and v.dtype.itemsize == 16):
+                s["cls"] = cls = "existing-same"
+            if cls == "existing-larger":
+                # an existing target that is larger than the source along some axes, no region given
+                if v.ndim == 0 or v.size == 0:
+                    s["cls"] = cls = "existing-same"
+                else:
+                    g = [draw(st.integers(0, 3)) for _ in v.shape]
+                    if not any(g):
+                        g[draw(st.integers(0, v.ndim - 1))] = draw(st.integers(1, 3))
+                    s["grow"] = g
+                    s["grow_unit"] = draw(st.sampled_from(["chunks", "chunks", "elements"]))
             if cls == "existing-smaller":
                 if v.ndim == 0 or max(v.shape) < 2:
                     s["cls"] = cls = "existing-same"
@@ -171,6 +183,13 @@ def build_sinks(sinks, arrs, ctx: SinkCtx, spec, vals=None, compute=False, execu
                 tchunks = tuple(max(1, min(int(c), max(n, 1))) for c, n in zip(s["tchunks"], shape))
             if cls == "existing-smaller":
                 tshape = tuple(max(1, n - s["cut"]) if i == s["axis"] else n for i, n in enumerate(shape))
+            if cls == "existing-larger":
+                tshape = tuple(n + g * (c if s["grow_unit"] == "chunks" else 1) for n, g, c in zip(shape, s["grow"], cs))
+                # the source goes into the leading region; that is safe only if no target chunk is written partially
+                if all(n % c == 0 or n == t for n, c, t in zip(shape, cs, tshape)):
+                    region = [[0, n] for n in shape]
+                else:
+                    cls = "existing-larger-unaligned"
             if cls == "sharded":
                 shards = tuple(max(1, c * m) for c, m in zip(cs, s["mult"]))
                 inner = tuple(max(1, sh // 2) if (s.get("inner_div") and sh % 2 == 0) else sh for sh in shards)
@@ -226,8 +245,13 @@ def build_sinks(sinks, arrs, ctx: SinkCtx, spec, vals=None, compute=False, execu
                     tchunks = tuple(max(1, t // 2) if t % 2 == 0 else t for t in tchunks)
                     cls = cls + "+sharded"
             path = f"t{k}"
-            z = zarr.create_array(ts, name=path, shape=tshape, dtype=src.dtype, chunks=tuple(max(1, c) for c in tchunks) if tshape else (), **kw)
-            before = _sentinel(tshape, src.dtype)
+            tdtype = src.dtype
+            if cls == "existing-dtype":
+                # an existing target of another (wider) dtype: values are cast on write, the source itself is unaffected
+                kd, isz = np.dtype(src.dtype).kind, np.dtype(src.dtype).itemsize
+                tdtype = np.dtype({"b": "int8", "i": "float64" if isz == 8 else "int64", "u": "int64" if isz < 8 else "float64", "f": "float64" if isz < 8 else "complex128", "c": "complex128"}[kd])
+            z = zarr.create_array(ts, name=path, shape=tshape, dtype=tdtype, chunks=tuple(max(1, c) for c in tchunks) if tshape else (), **kw)
+            before = _sentinel(tshape, tdtype)
             if before.size:
                 z[...] = before
             ts.state.clear()
@@ -241,13 +265,13 @@ def build_sinks(sinks, arrs, ctx: SinkCtx, spec, vals=None, compute=False, execu
                     except Exception:
                         expected = None
                 else:
-                    expected = ref.astype(src.dtype) if ref.shape == tshape else None
-            if cls in ("region-misaligned", "existing-smaller"):
+                    expected = ref.astype(tdtype) if ref.shape == tshape else None
+            if cls in ("region-misaligned", "existing-smaller", "existing-larger-unaligned"):
                 expected = None  # must be rejected
         tgt = Target(sink=dict(s, cls=cls), store=ts, path=path, expected=expected, before=before, region=region, zarr_array=tgt_obj if not hasattr(tgt_obj, "state") else None)
         ctx.targets.append(tgt)
         reg = None
-        if region is not None:
+        if region is not None and not cls.startswith("existing-larger"):
             if s.get("full_slices"):
                 reg = tuple(slice(None) for _ in shape)
             else:
